@@ -45,6 +45,42 @@ DESC = {
     "C17-2": ("one shared exec namespace for generated code", "two threads compiling sources with the same experiment name at the same moment"),
     "C18-1": ("probit rewritten without abs()", "alpha > 0.5 (upper-tail probability)"),
     "C18-2": ("Agresti-Coull uses round(p*n)", "small n where p*n is not an integer"),
+    "C01-3": ("recompile checksum over whitespace-collapsed source", "recompile of a long-lived evaluator to a text that differs only in significant whitespace (inside a literal, newline after a // comment)"),
+    "C01-4": ("helper named choose_<id>_variant + exposed layout exec'd into one module-level dict", "two live evaluators built from different revisions that share the experiment name"),
+    "C02-3": ("'no else after return' cleanup of generated code with a shallow _always_returns", "three-level shape: a chain closed by else whose non-final arm contains an if without else that falls through"),
+    "C02-4": ("string literals NFC-normalised in the lexer", "a literal that is not in NFC form compared with a field holding exactly its code points"),
+    "C03-3": ("repeated group literals folded through a dict with summed weights", "a return statement naming the same literal twice (or 1 and 1.0) in non-adjacent slots"),
+    "C03-4": ("bisect upper bound lowered while isclose(cum[hi-1], total)", "a last group carrying <= 1e-9 of the total but >= 1 grid point, and a unit in the top grid points"),
+    "C04-3": ("splitter that also appears in a predicate is dropped from the hashed key", "an experiment whose splitter field is also used in an if"),
+    "C04-4": ("per-evaluator lru_cache of assignments that recompile() never clears", "evaluate units, recompile with another salt / weights, evaluate the same units again"),
+    "C05-3": ("adjacent groups with equal definition merged (itertools.groupby)", "an int literal directly next to the float literal of the same value in one return statement"),
+    "C05-4": ("program text BOM-stripped and NFC-normalised before lexing", "a non-NFC string literal anywhere (group, operand, tuple member, salt)"),
+    "C06-3": ("grammar accepts a trailing comma in tuples", "a comma directly before the closing parenthesis of a tuple"),
+    "C06-4": ("number rule \\d+(\\.\\d*)? swallows a trailing dot", "an integer literal followed by '.' and no digit ('weighted 3.')"),
+    "C07-3": ("trailing raise omitted when _is_exhaustive() (which never inspects the closing else body) says so", "every chain ends in else but some else body holds a nested chain without else; input routed into that hole"),
+    "C07-4": ("module-level lexer/parser pair, reset only on the unterminated-comment path", "a rejected text whose unterminated /* opens before the program is complete, then any grammatical text"),
+    "C08-3": ("sly: ignore rules compiled into a skip pattern fetched once (not per lexer state)", "'//' right after '/*' (or at the start of a later comment line) with the closing '*/' on that line"),
+    "C08-4": ("BlockComment state skips quoted text as a unit", "a block comment holding one unbalanced quote, closed on its line, with another quote later on that line"),
+    "C09-3": ("hash key emitted as one f-string (braces of the salt not doubled)", "a salt containing {name} of something in scope (kwargs, a condition field)"),
+    "C09-4": ("source fingerprint with comments stripped by a string-unaware regex", "recompile to a revision differing only inside a literal after '//' (URL) or in blank runs inside a literal"),
+    "C10-3": ("extra digest bits for tiny shares: slices bits//4 hex chars but divides by 1<<bits", "smallest positive share below 2^-16 with a bit count not divisible by 4"),
+    "C10-4": ("groups of one return folded into a dict keyed by label", "the same label in two non-adjacent slots; ramps that only widen leading slices"),
+    "C11-3": ("per-instance namespace keyed by experiment name + fast path back to the previous source", "new(A), recompile(B), recompile(A) with A and B sharing the experiment name"),
+    "C11-4": ("text -> AST cache filled before the unterminated-comment check", "the same 'valid program + unclosed /*' text given twice (any evaluator)"),
+    "C12-3": ("hash key emitted as one f-string", "a salt containing '{' or '}'"),
+    "C12-4": ("`if not input_id:` instead of `is None`", "no / empty salt and every splitter value empty: key == ''"),
+    "C13-3": ("provenance comment with the verbatim salt in the generated header", "a salt containing a raw carriage return followed by code"),
+    "C13-4": ("block comments blanked by a regex pre-pass instead of a lexer state", "one literal containing '/*' and a later literal on the same line containing '*/'"),
+    "C14-3": ("generate_code re-indents with an unanchored replace of four blanks", "a string literal containing four or more consecutive blanks"),
+    "C14-4": ("compiled functions shared between instances, keyed by whitespace-normalised checksum", "source A compiled first, then B differing only in whitespace inside a quoted literal"),
+    "C15-3": ("`if not input_id:` instead of `is None`", "no salt and every splitter value printing as ''"),
+    "C15-4": ("whole-number floats keyed as ints (id_to_str)", "a splitter value that is a finite whole-number float (1.0, 1e22) vs the string that prints the same"),
+    "C16-3": ("running totals made non-decreasing in place", "cum_weights passed as a list whose totals dip (a negative weight) with a positive final total"),
+    "C16-4": ("exact integer branch keyed on type(cum_weights[-1])", "caller-supplied cum_weights whose last entry is an int while earlier ones are fractional"),
+    "C17-3": ("class-level cache of the last compiled experiment, checksum published before the function", "two threads compiling the same source at once right after another source was compiled"),
+    "C17-4": ("last-key memo in deterministic_proba (two module globals)", "a thread pre-empted between the two stores while another thread hashes"),
+    "C18-3": ("z-score memoised under round(confidence, 6)", "two calls in one process whose confidences differ beyond the sixth decimal"),
+    "C18-4": ("method names resolved by prefix", "an unknown method name that is a prefix of a known one ('', 'w', 'agresti-coul')"),
 }
 
 
@@ -62,7 +98,8 @@ def main():
             breaks_property=name.split("-")[0],
             change=what,
             needs_to_manifest=needs,
-            written_by="independent sub-agent given only the property text and a scratch git worktree of /repo (nothing from /verif)",
+            written_by="independent sub-agent given only the property text and a scratch git worktree of /repo (nothing from /verif)"
+                       + ("; round 2: additionally told which round-1 ideas not to repeat" if int(name.split("-")[1]) >= 3 else ""),
             confirmed=dict(
                 patch_applies=run.get("patch_applies"),
                 baseline_tests_pass_with_change=run.get("tests_pass_with_change"),
